@@ -711,7 +711,10 @@ func fillHashHelper(r interface{}, depth int, env *Zlisp, preferSym bool) (Sexp,
 		}
 		if reflect.ValueOf(st).Type() == reflect.ValueOf(r).Type() {
 			//Q("we have a registered struct match for st=%T and r=%T", st, r)
-			retHash, err := MakeHash([]Sexp{}, hashName, env)
+			// each type is registered under two keys (its given name
+			// and its Go reflect name); name the record by the type's
+			// registered name, not by whichever key the map walk met first.
+			retHash, err := MakeHash([]Sexp{}, factory.RegisteredName, env)
 			if err != nil {
 				return SexpNull, fmt.Errorf("MakeHash '%s' problem: %s",
 					hashName, err)
